@@ -93,3 +93,13 @@ Definition rc4go_xks_arena (st : rc4st) (arena : list N) (doff dlen soff slen : 
     let src := firstn (N.to_nat slen) (skipn (N.to_nat soff) arena) in
     let '(out, st') := rc4go_xks st src in
     Ok (firstn (N.to_nat doff) arena ++ out ++ skipn (N.to_nat (doff + slen)) arena, st').
+
+(* a sequence of XORKeyStream calls on one cipher object: all the bytes produced, final state *)
+Fixpoint rc4go_stream (st : rc4st) (chunks : list (list N)) : list N * rc4st :=
+  match chunks with
+  | [] => ([], st)
+  | c :: r =>
+      let '(o1, st1) := rc4go_xks st c in
+      let '(o2, st2) := rc4go_stream st1 r in
+      (o1 ++ o2, st2)
+  end.
